@@ -48,6 +48,18 @@ def potential_coeffs(kind, param, nq, qdeg, ncr, rdeg, Tr, rpts, seed):
         cr = SO.interpolant_coeffs(Tr, rdeg, False, ncr, rpts, [param * x * x / 2 for x in rpts])
         return [list(cr) for _ in range(nq + qdeg)]
     rnd = random.Random(seed)
+    if kind == 'rotwave':
+        # rigid rotation of more than one turn per step plus a theta-dependent part: the predictor lands beyond [0, 2 pi)
+        cr = SO.interpolant_coeffs(Tr, rdeg, False, ncr, rpts, [param * x * x / 2 for x in rpts])
+        a = [Fr(rnd.randint(-4, 4), 8) for _ in range(nq)]
+        a = a + a[:qdeg]
+        return [[cr[j] + a[i] for j in range(nbr)] for i in range(nq + qdeg)]
+    if kind == 'wave_local':
+        # theta-dependence confined away from the last theta rows: rows converge at different speeds in the implicit scheme
+        a = [Fr(0)] * nq
+        a[1], a[2] = param, -param
+        a = a + a[:qdeg]
+        return [[a[i]] * nbr for i in range(nq + qdeg)]
     if kind == 'wave':
         a = [Fr(rnd.randint(-6, 6), 4) * param for _ in range(nq)]
         a = a + a[:qdeg]
@@ -83,7 +95,8 @@ def work(item):
         rs = dist.make_basis(rdeg, False, rbreaks, uniform=(path == 'cu'))
         qpts, rpts = [symx.fval(p) for p in qs.greville], [symx.fval(p) for p in rs.greville]
         eta = [np.array(list(rs.greville), dtype=object), np.array(list(qs.greville), dtype=object), numenv.karr([0, 1]), numenv.karr([vpar])]
-        pa = adv.PoloidalAdvection(eta, [qs, rs], PC, nulEdge=nul, explicitTrap=(scheme == 'expl'), tol=1e-10)
+        tol = Fr(scheme.split('@')[1]) if '@' in scheme else Fr(1, 10 ** 10)
+        pa = adv.PoloidalAdvection(eta, [qs, rs], PC, nulEdge=nul, explicitTrap=(scheme == 'expl'), tol=K(tol))
         phi = m['spl'].Spline2D(qs, rs)
         Cphi = potential_coeffs(pot, param, nq, qdeg, ncr, rdeg, Tr, rpts, seed=11)
         for i in range(len(Cphi)):
@@ -113,6 +126,43 @@ def work(item):
         mf = Fr(dt) / B0
         rmin, rmax = rpts[0], rpts[-1]
         out = {}
+        if scheme.startswith('impl@'):
+            # the stated implicit trapezoid: fixed-point iteration from the Euler foot, radial clipping, iterated until the
+            # largest change of any foot (theta distance on the circle, radial distance) is at most tol
+            tol = Fr(scheme.split('@')[1])
+            d0 = {}
+            cur = {}
+            for i, q in enumerate(qpts):
+                for j, r in enumerate(rpts):
+                    dr0 = spline2(Tq, qdeg, Tr, rdeg, Cphi, q, r, 0, 1) / r
+                    dq0 = spline2(Tq, qdeg, Tr, rdeg, Cphi, q, r, 1, 0) / r
+                    d0[(i, j)] = (dr0, dq0)
+                    cur[(i, j)] = (q - dr0 * mf, r + dq0 * mf)
+            for it in range(60):
+                norm = Fr(0)
+                nxt = {}
+                for (i, j), (q1, r1) in cur.items():
+                    q, r = qpts[i], rpts[j]
+                    q1 = q1 % TWO_PI
+                    if rmin <= r1 <= rmax:
+                        drk = spline2(Tq, qdeg, Tr, rdeg, Cphi, q1, r1, 0, 1) / r1
+                        dqk = spline2(Tq, qdeg, Tr, rdeg, Cphi, q1, r1, 1, 0) / r1
+                    else:
+                        drk = dqk = Fr(0)
+                    q2 = (q - (d0[(i, j)][0] + drk) * mf / 2) % TWO_PI
+                    r2 = min(max(r + (d0[(i, j)][1] + dqk) * mf / 2, rmin), rmax)
+                    dd = abs(q2 - q1)
+                    if dd > TWO_PI / 2:
+                        dd = TWO_PI - dd
+                    norm = max(norm, dd, abs(r2 - r1))
+                    nxt[(i, j)] = (q2, r2)
+                cur = nxt
+                if norm <= tol:
+                    break
+            else:
+                raise RuntimeError('oracle implicit iteration did not converge in 60 passes')
+            st['impl_passes'] = it + 1
+            return cur
         for i, q in enumerate(qpts):
             for j, r in enumerate(rpts):
                 dr0 = spline2(Tq, qdeg, Tr, rdeg, Cphi, q, r, 0, 1) / r
@@ -219,7 +269,8 @@ def float_replay(m, adv, item):
             setattr(FC, k_, float(getattr(Consts, k_)))
         FC.B0 = float(B0)
         eta = [rpf, qpf, np.array([0.0, 1.0]), np.array([0.5])]
-        pa = adv.PoloidalAdvection(eta, [qs, rs], FC, nulEdge=nul, explicitTrap=(scheme == 'expl'), tol=1e-10)
+        tolf = float(Fr(scheme.split('@')[1])) if '@' in scheme else 1e-10
+        pa = adv.PoloidalAdvection(eta, [qs, rs], FC, nulEdge=nul, explicitTrap=(scheme == 'expl'), tol=tolf)
         phi = m['spl'].Spline2D(qs, rs)
         Cphi = potential_coeffs(pot, param, nq, qdeg, ncr, rdeg, Tr, rpts, seed=11)
         phi.coeffs[:, :] = np.array([[float(x) for x in row] for row in Cphi])
@@ -234,8 +285,43 @@ def float_replay(m, adv, item):
         mf = float(dt) / float(B0)
         worst = 0.0
         rmin, rmax = rpf[0], rpf[-1]
+        impl_feet = None
+        if scheme.startswith('impl@'):
+            # reference feet: the same stated iteration in floats
+            cur = {}
+            d0 = {}
+            for i, q in enumerate(qpf):
+                for j, r in enumerate(rpf):
+                    d0[(i, j)] = (phi.eval(q, r, 0, 1) / r, phi.eval(q, r, 1, 0) / r)
+                    cur[(i, j)] = (q - d0[(i, j)][0] * mf, r + d0[(i, j)][1] * mf)
+            for it in range(200):
+                norm = 0.0
+                nxt = {}
+                for (i, j), (q1, r1) in cur.items():
+                    q, r = qpf[i], rpf[j]
+                    q1 = q1 % (2 * np.pi)
+                    if rmin <= r1 <= rmax:
+                        drk, dqk = phi.eval(q1, r1, 0, 1) / r1, phi.eval(q1, r1, 1, 0) / r1
+                    else:
+                        drk = dqk = 0.0
+                    q2 = (q - (d0[(i, j)][0] + drk) * mf / 2) % (2 * np.pi)
+                    r2 = min(max(r + (d0[(i, j)][1] + dqk) * mf / 2, rmin), rmax)
+                    dd = abs(q2 - q1)
+                    if dd > np.pi:
+                        dd = 2 * np.pi - dd
+                    norm = max(norm, dd, abs(r2 - r1))
+                    nxt[(i, j)] = (q2, r2)
+                cur = nxt
+                if norm <= tolf:
+                    break
+            impl_feet = cur
         for i, q in enumerate(qpf):
             for j, r in enumerate(rpf):
+                if impl_feet is not None:
+                    q2, r2 = impl_feet[(i, j)]
+                    exp = sp.eval(q2 % (2 * np.pi), r2)
+                    worst = max(worst, abs(f[i, j] - exp))
+                    continue
                 dr0 = phi.eval(q, r, 0, 1) / r
                 dq0 = phi.eval(q, r, 1, 0) / r
                 q1 = (q - dr0 * mf) % (2 * np.pi)
@@ -296,6 +382,11 @@ def main():
         items.append(('cu', 3, 3, 4, 2, 'wave', Fr(2), Fr(2), 'expl', nul, None))
         items.append(('cu', 3, 3, 4, 2, 'wave', Fr(2), Fr(-2), 'expl', nul, None))
     items.append(('cu', 3, 3, 4, 2, 'generic', Fr(1), Fr(1, 4), 'expl', True, None))
+    # predictor more than one poloidal turn away, theta-dependent potential (explicit scheme)
+    items.append(('nu', 3, 2, 5, 2, 'rotwave', Fr(12), Fr(1), 'expl', True, None))
+    items.append(('cu', 3, 3, 5, 2, 'rotwave', Fr(-12), Fr(1), 'expl', False, None))
+    # implicit scheme with a coarse tolerance on a potential whose theta rows converge at different speeds
+    items.append(('cu', 3, 3, 6, 2, 'wave_local', Fr(3), Fr(1, 2), 'impl@1/20', True, None))
     items.append(('nu', 2, 3, 3, 2, 'generic', Fr(1), Fr(-1, 2), 'expl', False, None))
     if not quick:
         for dt in (Fr(1, 8), Fr(-3, 4), Fr(3)):
@@ -318,7 +409,7 @@ def main():
         hit = caught.get(cn[0], False)
         run.canaries.append(dict(name=cn[0], detected=hit))
         if not hit:
-            run.inconc('canary not detected: %s' % cn[0])
+            run.canary_miss(cn[0], caught)
     numenv.enable(extra_modules=[(adv, None), (acc, None), (m['init_funcs'], None)])
     run.stubs = sorted(set(numenv.STUBS)) + ['exp/tanh/sqrt uninterpreted (equilibrium)']
     numenv.disable()
